@@ -464,4 +464,538 @@ theorem advanceG_sim (pj : PJ) (i : Iter) (hl : i.lim ≤ pj.tape.size) (fuel : 
   rw [runFun_final _ _ _ _ key.final]
   exact key
 
+/-! ## AdvanceInto -/
+
+theorem advanceInto_body (e : Env) (tape : Array UInt64) (f : Nat) (j : Iter) (hI : iterAt e "i" = some j)
+    (hsz : j.lim ≤ tape.size) :
+    exec goFuns (f + 1) (firstLoop goIter_AdvanceInto.body) ⟨e, tape⟩ =
+      if h : j.off ≥ j.lim then .ret ⟨(e.set "i.addNext" (.int 0)).set "i.t" (.u8 0), tape⟩ [.u8 0] else
+        let v := tape[j.off]'(by omega)
+        let e1 := ((e.set "v" (.u64 v)).set "i.t" (.u8 (tagOf v))).set "i.cur" (.u64 (payloadOf v))
+        if tagOf v = tagNop then
+          if payloadOf v = 0 then
+            .ret ⟨setIter e1 "i" (Iter.moveToEnd { j with cur := payloadOf v, t := tagOf v }), tape⟩ [.u8 0]
+          else .cont ⟨e1.set "i.off" (.int ((j.off : Int) + ((payloadOf v).toNat : Int))), tape⟩
+        else .brk ⟨e1.set "i.off" (.int ((j.off : Int) + 1)), tape⟩ := by
+  obtain ⟨h1, h2, h3, h4, h5⟩ := iterAt_get_i _ _ hI
+  simp only [goIter_AdvanceInto, firstLoop]
+  by_cases h : j.off ≥ j.lim
+  · simp [h1, h2, h3, h4, h5, h]
+  · have hlt : j.off < j.lim := by omega
+    have hr : tape[j.off]? = some (tape[j.off]'(by omega)) := by simp
+    simp only [dif_neg h]
+    generalize tape[j.off] = v at hr ⊢
+    have ht : (v >>> 56).toUInt8 = tagOf v := rfl
+    have hp : v &&& 72057594037927935 = payloadOf v := rfl
+    simp only [tagNop]
+    by_cases hn : tagOf v = 78
+    · by_cases hz : payloadOf v = 0
+      · simp [h1, h2, h3, h4, h5, h, hlt, hr, ht, hp, hz, hn, goFuns, goIter_moveToEnd, Env.set, Env.get, setIter,
+          Iter.moveToEnd, tagEnd]
+      · simp [h1, h2, h3, h4, h5, h, hlt, hr, ht, hp, toInt64_payload, hz, hn, u64_le_zero]
+    · have hb : (tagOf v == 78) = false := by simp [hn]
+      simp [h1, h2, h3, h4, h5, h, hlt, hr, ht, hp, hb, hn]
+
+theorem advanceInto_body_neg (e : Env) (tape : Array UInt64) (fuel : Nat) (o : Int) (lim : Nat) (ho : o < 0)
+    (hoff : e.get "i.off" = some (.int o)) (hlim : e.get "i.lim" = some (.int lim)) :
+    exec goFuns fuel (firstLoop goIter_AdvanceInto.body) ⟨e, tape⟩ = .panic := by
+  simp only [goIter_AdvanceInto, firstLoop]
+  have h1 : ¬ (lim : Int) ≤ o := by omega
+  have h2 : ¬ 0 ≤ o := by omega
+  simp [hoff, hlim, h1, h2]
+
+theorem advanceInto_loop (pj : PJ) : ∀ (n : Nat) (j : Iter) (fuel : Nat) (e : Env), j.lim - j.off ≤ n →
+    n + 1 < fuel → j.lim ≤ pj.tape.size → iterAt e "i" = some j →
+    LoopSim pj.tape [.u8 0] (exec1 goFuns fuel (.loop (firstLoop goIter_AdvanceInto.body)) ⟨e, pj.tape⟩)
+      (advanceIntoLoopG pj j) := by
+  intro n
+  induction n with
+  | zero =>
+    intro j fuel e hn hf hsz hI
+    obtain ⟨f, rfl⟩ : ∃ f, fuel = f + 2 := ⟨fuel - 2, by omega⟩
+    obtain ⟨h1, h2, h3, h4, h5⟩ := iterAt_get_i _ _ hI
+    rw [exec1, advanceInto_body e pj.tape f j hI hsz, advanceIntoLoopG]
+    have h : j.off ≥ j.lim := by omega
+    simp only [h, dif_pos, LoopSim]
+    refine ⟨_, rfl, rfl, ?_⟩
+    apply iterAt_of_gets <;> simp [h1, h3, h5, tagEnd]
+  | succ n ih =>
+    intro j fuel e hn hf hsz hI
+    obtain ⟨f, rfl⟩ : ∃ f, fuel = f + 2 := ⟨fuel - 2, by omega⟩
+    obtain ⟨h1, h2, h3, h4, h5⟩ := iterAt_get_i _ _ hI
+    rw [exec1, advanceInto_body e pj.tape f j hI hsz, advanceIntoLoopG]
+    by_cases h : j.off ≥ j.lim
+    · simp only [h, dif_pos, LoopSim]
+      refine ⟨_, rfl, rfl, ?_⟩
+      apply iterAt_of_gets <;> simp [h1, h3, h5, tagEnd]
+    · have hr : pj.tape[j.off]? = some (pj.tape[j.off]'(by omega)) := by simp
+      simp only [h, dif_neg, not_false_eq_true, Iter.rdT, rd, hr, Res.bind_ok]
+      generalize pj.tape[j.off] = v
+      by_cases hn' : tagOf v = tagNop
+      · by_cases hz : payloadOf v = 0
+        · simp only [hn', hz, if_true, beq_self_eq_true, LoopSim, dite_true]
+          exact ⟨_, rfl, rfl, iterAt_setIter_i _ _⟩
+        · have hz' := payload_toNat_ne v hz
+          simp only [hn', hz, if_true, if_false, beq_self_eq_true, beq_iff_eq, dite_false, dif_neg, not_false_eq_true]
+          refine ih _ (f + 1) _ (by simp only; omega) (by omega) hsz ?_
+          apply iterAt_of_gets <;> simp [h2, h5]
+      · have hb : (tagOf v == tagNop) = false := by simp [hn']
+        simp only [hn', hb, if_false, LoopSim]
+        refine ⟨_, rfl, rfl, ?_, payload_lt v⟩
+        apply iterAt_of_gets <;> simp [h2, h5]
+
+/-- the statements after the loop of `AdvanceInto`, on any store -/
+theorem advanceInto_tail (s : St) (j : Iter) (f : Nat) (hI : iterAt s.env "i" = some j) (hcur : j.cur.toNat < 2^63) :
+    ∃ s', exec goFuns (f + 1) (afterLoop goIter_AdvanceInto.body) s =
+        .ret s' [.u8 (if (j.calcNext true).addNext < 0 then tagEnd else (j.calcNext true).t)] ∧
+      s'.tape = s.tape ∧
+      iterAt s'.env "i" = some (if (j.calcNext true).addNext < 0 then (j.calcNext true).moveToEnd
+        else j.calcNext true) := by
+  simp only [goIter_AdvanceInto, afterLoop]
+  rw [exec, call_calcNext_i s j true f hI hcur]
+  simp only []
+  have hI2 := iterAt_setIter_i s.env (j.calcNext true)
+  generalize setIter s.env "i" (j.calcNext true) = e1 at hI2
+  generalize j.calcNext true = j2 at hI2
+  obtain ⟨h1, h2, h3, h4, h5⟩ := iterAt_get_i _ _ hI2
+  by_cases hneg : j2.addNext < 0
+  · simp only [hneg, if_true]
+    refine ⟨⟨setIter e1 "i" j2.moveToEnd, s.tape⟩, ?_, rfl, iterAt_setIter_i _ _⟩
+    simp [h1, h2, h3, h4, h5, hneg, goFuns, goIter_moveToEnd, Env.set, Env.get, setIter, Iter.moveToEnd, tagEnd]
+  · simp only [hneg, if_false]
+    refine ⟨⟨e1, s.tape⟩, ?_, rfl, hI2⟩
+    simp [h1, h2, h3, h4, h5, hneg]
+
+theorem advanceIntoG_sim (pj : PJ) (i : Iter) (hl : i.lim ≤ pj.tape.size) (fuel : Nat) (hf : fuelFor i ≤ fuel) :
+    SimT pj.tape (runFun goFuns goIter_AdvanceInto fuel { env := envOf "i" i, tape := pj.tape })
+      (advanceIntoG pj i) := by
+  have hbody : goIter_AdvanceInto.body = .assign "i.off" (.bin .add (.v "i.off") (.v "i.addNext")) ::
+      .loop (firstLoop goIter_AdvanceInto.body) :: afterLoop goIter_AdvanceInto.body := rfl
+  have h1 : exec1 goFuns fuel (.assign "i.off" (.bin .add (.v "i.off") (.v "i.addNext"))) ⟨envOf "i" i, pj.tape⟩ =
+      .normal ⟨(envOf "i" i).set "i.off" (.int ((i.off : Int) + i.addNext)), pj.tape⟩ := by
+    simp [envOf, Env.get]
+  unfold fuelFor at hf
+  obtain ⟨f, rfl⟩ : ∃ f, fuel = f + 2 := ⟨fuel - 2, by omega⟩
+  have key : SimT pj.tape (exec goFuns (f + 2) goIter_AdvanceInto.body ⟨envOf "i" i, pj.tape⟩)
+      (advanceIntoG pj i) := by
+    rw [hbody, exec, h1]
+    simp only []
+    unfold advanceIntoG Iter.bump
+    by_cases ho : (i.off : Int) + i.addNext < 0
+    · have hp : exec1 goFuns (f + 2) (.loop (firstLoop goIter_AdvanceInto.body))
+          ⟨(envOf "i" i).set "i.off" (.int ((i.off : Int) + i.addNext)), pj.tape⟩ = .panic := by
+        rw [exec1, advanceInto_body_neg _ pj.tape (f + 1) _ i.lim ho (Env.get_set_self _ _ _)
+          (by simp [envOf, Env.get])]
+      rw [exec_cons_final _ _ _ _ _ (by rw [hp]; rfl), hp]
+      simp [ho, SimT]
+    · simp only [ho, if_false, Res.bind_ok]
+      have hI : iterAt ((envOf "i" i).set "i.off" (.int ((i.off : Int) + i.addNext))) "i" =
+          some { i with off := ((i.off : Int) + i.addNext).toNat } := by
+        apply iterAt_of_gets <;> simp [envOf, Env.get]
+        omega
+      have hloop := advanceInto_loop pj i.lim { i with off := ((i.off : Int) + i.addNext).toNat } (f + 2) _
+        (Nat.sub_le _ _) (by omega) hl hI
+      rw [exec]
+      generalize exec1 goFuns (f + 2) (.loop (firstLoop goIter_AdvanceInto.body))
+        ⟨(envOf "i" i).set "i.off" (.int ((i.off : Int) + i.addNext)), pj.tape⟩ = out at hloop ⊢
+      cases hg : advanceIntoLoopG pj { i with off := ((i.off : Int) + i.addNext).toNat } with
+      | ok r =>
+        obtain ⟨a, l⟩ := r
+        rw [hg] at hloop
+        cases l with
+        | true =>
+          obtain ⟨s, rfl, hst, hIs, hc⟩ := hloop
+          simp only []
+          obtain ⟨s', hx, hst', hIs'⟩ := advanceInto_tail s a (f + 1) hIs (by omega)
+          rw [hx]
+          simp only [Res.bind_ok, Bool.not_true, Bool.false_eq_true, if_false]
+          by_cases hneg : (a.calcNext true).addNext < 0
+          · simp only [hneg, if_true] at hIs' ⊢
+            exact ⟨s', rfl, by rw [hst', hst], hIs'⟩
+          · simp only [hneg, if_false] at hIs' ⊢
+            exact ⟨s', rfl, by rw [hst', hst], hIs'⟩
+        | false =>
+          obtain ⟨s, rfl, hst, hIs⟩ := hloop
+          simp only [Res.bind_ok, Bool.not_false, if_true, SimT, tagEnd]
+          exact ⟨s, rfl, hst, hIs⟩
+      | panic =>
+        rw [hg] at hloop
+        simp only [LoopSim] at hloop
+        subst hloop
+        simp [SimT]
+      | error e => rw [hg] at hloop; exact hloop.elim
+      | diverge => rw [hg] at hloop; exact hloop.elim
+  rw [runFun_final _ _ _ _ key.final]
+  exact key
+
+/-! ## AdvanceIter -/
+
+/-- the loop writes only the receiver's variables and the local `v` -/
+def Frame (e e' : Env) : Prop := ∀ k, k ∉ "v" :: fieldsOf "i" → e'.get k = e.get k
+
+theorem Frame.refl (e : Env) : Frame e e := fun _ _ => rfl
+
+theorem Frame.set {e e' : Env} (h : Frame e e') (k : String) (v : Val) (hk : k ∈ "v" :: fieldsOf "i") :
+    Frame e (e'.set k v) := by
+  intro k' hk'
+  have hne : k ≠ k' := by
+    intro hh
+    subst hh
+    exact hk' hk
+  rw [Env.get_set_ne _ _ hne]
+  exact h k' hk'
+
+theorem Frame.trans {a b c : Env} (h1 : Frame a b) (h2 : Frame b c) : Frame a c :=
+  fun k hk => (h2 k hk).trans (h1 k hk)
+
+theorem Frame.iterAt_dst {e e' : Env} (h : Frame e e') : iterAt e' "dst" = iterAt e "dst" := by
+  apply iterAt_congr
+  intro k hk
+  apply h
+  revert k
+  decide
+
+def LoopSimIter (tape : Array UInt64) (e : Env) (o : Out) (r : Res (Iter × Bool)) : Prop :=
+  match r with
+  | .ok (j', true) =>
+    ∃ s, o = .normal s ∧ s.tape = tape ∧ iterAt s.env "i" = some j' ∧ j'.cur.toNat < 2^56 ∧ Frame e s.env
+  | .ok (j', false) =>
+    ∃ s, o = .ret s [.u8 0, .bool false] ∧ s.tape = tape ∧ iterAt s.env "i" = some j' ∧ Frame e s.env
+  | .error _ => ∃ s, o = .ret s [.u8 0, .bool true]
+  | .panic => o = .panic
+  | .diverge => False
+
+theorem advanceIter_body (e : Env) (tape : Array UInt64) (f : Nat) (j : Iter) (hI : iterAt e "i" = some j)
+    (hsz : j.lim ≤ tape.size) :
+    exec goFuns f (firstLoop goIter_AdvanceIter.body) ⟨e, tape⟩ =
+      if he : j.off = j.lim then .ret ⟨(e.set "i.addNext" (.int 0)).set "i.t" (.u8 0), tape⟩ [.u8 0, .bool false]
+      else if h : j.off > j.lim then .ret ⟨e, tape⟩ [.u8 0, .bool true]
+      else
+        let v := tape[j.off]'(by omega)
+        let e1 := (((e.set "v" (.u64 v)).set "i.cur" (.u64 (payloadOf v))).set "i.t" (.u8 (tagOf v))).set "i.off"
+          (.int (j.off + 1))
+        if tagOf v = tagNop then
+          if payloadOf v = 0 then .ret ⟨e1, tape⟩ [.u8 0, .bool true]
+          else .cont ⟨e1.set "i.off" (.int ((j.off : Int) + 1 + (((payloadOf v).toNat : Int) - 1))), tape⟩
+        else .brk ⟨e1, tape⟩ := by
+  obtain ⟨h1, h2, h3, h4, h5⟩ := iterAt_get_i _ _ hI
+  simp only [goIter_AdvanceIter, firstLoop]
+  by_cases he : j.off = j.lim
+  · simp [h1, h2, h3, h4, h5, he]
+  · by_cases h : j.off > j.lim
+    · have : (j.lim : Int) < j.off := by omega
+      have he' : ((j.off : Int) == (j.lim : Int)) = false := by simp; omega
+      simp [h1, h2, h3, h4, h5, he, he', h, this]
+    · have hlt : j.off < j.lim := by omega
+      have hr : tape[j.off]? = some (tape[j.off]'(by omega)) := by simp
+      have hgt : ¬ (j.lim : Int) < j.off := by omega
+      have he' : ((j.off : Int) == (j.lim : Int)) = false := by simp; omega
+      simp only [dif_neg he, dif_neg h]
+      generalize tape[j.off] = v at hr ⊢
+      have ht : (v >>> 56).toUInt8 = tagOf v := rfl
+      have hp : v &&& 72057594037927935 = payloadOf v := rfl
+      simp only [tagNop]
+      by_cases hn : tagOf v = 78
+      · by_cases hz : payloadOf v = 0
+        · simp [h1, h2, h3, h4, h5, he, he', h, hgt, hlt, hr, ht, hp, hz, hn]
+        · simp [h1, h2, h3, h4, h5, he, he', h, hgt, hlt, hr, ht, hp, toInt64_payload, hz, hn, u64_le_zero]
+      · have hb : (tagOf v == 78) = false := by simp [hn]
+        simp [h1, h2, h3, h4, h5, he, he', h, hgt, hlt, hr, ht, hp, hb, hn]
+
+theorem advanceIter_body_neg (e : Env) (tape : Array UInt64) (fuel : Nat) (o : Int) (lim : Nat) (ho : o < 0)
+    (hoff : e.get "i.off" = some (.int o)) (hlim : e.get "i.lim" = some (.int lim)) :
+    exec goFuns fuel (firstLoop goIter_AdvanceIter.body) ⟨e, tape⟩ = .panic := by
+  simp only [goIter_AdvanceIter, firstLoop]
+  have h1 : (o == (lim : Int)) = false := by simp; omega
+  have h2 : ¬ 0 ≤ o := by omega
+  have h3 : ¬ (lim : Int) < o := by omega
+  simp [hoff, hlim, h1, h2, h3]
+
+theorem advanceIter_loop (pj : PJ) : ∀ (n : Nat) (j : Iter) (fuel : Nat) (e : Env), j.lim - j.off ≤ n →
+    n < fuel → j.lim ≤ pj.tape.size → iterAt e "i" = some j →
+    LoopSimIter pj.tape e (exec1 goFuns fuel (.loop (firstLoop goIter_AdvanceIter.body)) ⟨e, pj.tape⟩)
+      (advanceIterLoopG pj j) := by
+  have hend : ∀ (j : Iter) (f : Nat) (e : Env), j.off ≥ j.lim → j.lim ≤ pj.tape.size → iterAt e "i" = some j →
+      LoopSimIter pj.tape e (exec1 goFuns (f + 1) (.loop (firstLoop goIter_AdvanceIter.body)) ⟨e, pj.tape⟩)
+        (advanceIterLoopG pj j) := by
+    intro j f e h hsz hI
+    obtain ⟨h1, h2, h3, h4, h5⟩ := iterAt_get_i _ _ hI
+    rw [exec1, advanceIter_body e pj.tape f j hI hsz, advanceIterLoopG]
+    by_cases he : j.off = j.lim
+    · simp only [he, dif_pos, LoopSimIter]
+      refine ⟨_, rfl, rfl, ?_, ?_⟩
+      · apply iterAt_of_gets <;> simp [h1, h3, h5, tagEnd, ← he]
+      · exact ((Frame.refl e).set _ _ (by decide)).set _ _ (by decide)
+    · have hgt : j.off > j.lim := by omega
+      simp only [he, if_false, dif_neg, not_false_eq_true, hgt, dif_pos, LoopSimIter]
+      exact ⟨_, rfl⟩
+  intro n
+  induction n with
+  | zero =>
+    intro j fuel e hn hf hsz hI
+    obtain ⟨f, rfl⟩ : ∃ f, fuel = f + 1 := ⟨fuel - 1, by omega⟩
+    exact hend j f e (by omega) hsz hI
+  | succ n ih =>
+    intro j fuel e hn hf hsz hI
+    obtain ⟨f, rfl⟩ : ∃ f, fuel = f + 1 := ⟨fuel - 1, by omega⟩
+    by_cases h : j.off ≥ j.lim
+    · exact hend j f e h hsz hI
+    · obtain ⟨h1, h2, h3, h4, h5⟩ := iterAt_get_i _ _ hI
+      rw [exec1, advanceIter_body e pj.tape f j hI hsz, advanceIterLoopG]
+      have he : ¬ j.off = j.lim := by omega
+      have hgt : ¬ j.off > j.lim := by omega
+      have hr : pj.tape[j.off]? = some (pj.tape[j.off]'(by omega)) := by simp
+      simp only [he, hgt, if_false, dif_neg, not_false_eq_true, Iter.rdT, rd, hr, Res.bind_ok]
+      generalize pj.tape[j.off] = v
+      have hF : Frame e ((((e.set "v" (.u64 v)).set "i.cur" (.u64 (payloadOf v))).set "i.t" (.u8 (tagOf v))).set
+          "i.off" (.int (j.off + 1))) :=
+        ((((Frame.refl e).set _ _ (by decide)).set _ _ (by decide)).set _ _ (by decide)).set _ _ (by decide)
+      by_cases hn' : tagOf v = tagNop
+      · by_cases hz : payloadOf v = 0
+        · simp only [hn', hz, if_true, beq_self_eq_true, LoopSimIter]
+          exact ⟨_, rfl⟩
+        · have hz' := payload_toNat_ne v hz
+          simp only [hn', hz, if_true, if_false, beq_self_eq_true, beq_iff_eq]
+          have hF' := hF.set "i.off" (.int ((j.off : Int) + 1 + (((payloadOf v).toNat : Int) - 1))) (by decide)
+          have := ih { j with off := j.off + 1 + ((payloadOf v).toNat - 1), cur := payloadOf v, t := tagOf v } f
+            (((((e.set "v" (.u64 v)).set "i.cur" (.u64 (payloadOf v))).set "i.t" (.u8 (tagOf v))).set
+              "i.off" (.int (j.off + 1))).set "i.off" (.int ((j.off : Int) + 1 + (((payloadOf v).toNat : Int) - 1))))
+            (by simp only; omega) (by omega) hsz
+            (by apply iterAt_of_gets <;> simp [h2, h5]
+                omega)
+          simp only [hn'] at this hF'
+          revert this
+          generalize exec1 goFuns f _ _ = out
+          generalize advanceIterLoopG pj _ = r
+          intro this
+          unfold LoopSimIter at this ⊢
+          split at this
+          · obtain ⟨s, a, b, c, d, e'⟩ := this
+            exact ⟨s, a, b, c, d, hF'.trans e'⟩
+          · obtain ⟨s, a, b, c, e'⟩ := this
+            exact ⟨s, a, b, c, hF'.trans e'⟩
+          · exact this
+          · exact this
+          · exact this
+      · have hb : (tagOf v == tagNop) = false := by simp [hn']
+        simp only [hn', hb, if_false, LoopSimIter]
+        refine ⟨_, rfl, rfl, ?_, payload_lt v, hF⟩
+        apply iterAt_of_gets <;> simp [h2, h5]
+
+theorem exec_append (funs : String → Option FunDef) (fuel : Nat) (a b : List Stmt) : ∀ s : St,
+    exec funs fuel (a ++ b) s = match exec funs fuel a s with | .normal s' => exec funs fuel b s' | o => o := by
+  induction a with
+  | nil => intro s; rw [List.nil_append, exec]
+  | cons st r ih =>
+    intro s
+    rw [List.cons_append, exec, exec]
+    cases exec1 funs fuel st s <;> simp only []
+    exact ih _
+
+/-- between the two `calcNext` calls: the negative-offset check, `iEnd`, `typ`, `*dst = *i` -/
+def iterSegB : List Stmt := ((afterLoop goIter_AdvanceIter.body).drop 1).take 4
+/-- after `dst.calcNext(true)`: the two checks, the restriction of `dst`, the return -/
+def iterSegD : List Stmt := (afterLoop goIter_AdvanceIter.body).drop 6
+
+theorem iter_tail_split : afterLoop goIter_AdvanceIter.body =
+    .call "i" "Iter.calcNext" [.bool false] :: (iterSegB ++ .call "dst" "Iter.calcNext" [.bool true] :: iterSegD) := rfl
+
+theorem iter_segB (e1 : Env) (tape : Array UInt64) (f : Nat) (i2 : Iter) (hI : iterAt e1 "i" = some i2)
+    (hne : e1.get "i!=dst" = some (.bool true)) :
+    (i2.addNext < 0 → ∃ s', exec goFuns (f + 1) iterSegB ⟨e1, tape⟩ = .ret s' [.u8 0, .bool true]) ∧
+    (¬ i2.addNext < 0 → exec goFuns (f + 1) iterSegB ⟨e1, tape⟩ =
+      .normal ⟨setIter ((e1.set "iEnd" (.int ((i2.off : Int) + i2.addNext))).set "typ" (.u8 (tagToType i2.t))) "dst" i2,
+        tape⟩) := by
+  obtain ⟨h1, h2, h3, h4, h5⟩ := iterAt_get_i _ _ hI
+  simp only [iterSegB, goIter_AdvanceIter, afterLoop, List.drop, List.take]
+  constructor
+  · intro hneg
+    simp [h1, h2, h3, h4, h5, hneg, goFuns, goIter_moveToEnd, Env.set, Env.get]
+  · intro hneg
+    simp [h1, h2, h3, h4, h5, hne, hneg, setIter, tagToType]
+
+theorem iter_segD (e3 : Env) (tape : Array UInt64) (f : Nat) (i2 d : Iter) (iEnd : Int) (typ : UInt8)
+    (hI : iterAt e3 "i" = some i2) (hD : iterAt e3 "dst" = some d) (hE : e3.get "iEnd" = some (.int iEnd))
+    (hT : e3.get "typ" = some (.u8 typ)) (h0 : 0 ≤ iEnd) :
+    exec goFuns (f + 1) iterSegD ⟨e3, tape⟩ =
+      if d.addNext < 0 then .ret ⟨setIter e3 "i" i2.moveToEnd, tape⟩ [.u8 0, .bool true]
+      else if iEnd > d.lim then .ret ⟨e3, tape⟩ [.u8 0, .bool true]
+      else .ret ⟨e3.set "dst.lim" (.int iEnd), tape⟩ [.u8 typ, .bool false] := by
+  obtain ⟨h1, h2, h3, h4, h5⟩ := iterAt_get_i _ _ hI
+  obtain ⟨d1, d2, d3, d4, d5⟩ := iterAt_get_dst _ _ hD
+  simp only [iterSegD, goIter_AdvanceIter, afterLoop, List.drop]
+  by_cases hneg : d.addNext < 0
+  · simp [h1, h2, h3, h4, h5, d1, d2, d3, d4, d5, hE, hT, hneg, goFuns, goIter_moveToEnd, Env.set, Env.get, setIter,
+      Iter.moveToEnd, tagEnd]
+  · by_cases hb : iEnd > d.lim
+    · simp [h1, h2, h3, h4, h5, d1, d2, d3, d4, d5, hE, hT, hneg, hb]
+    · have hle : iEnd ≤ (d.lim : Int) := by omega
+      simp [h1, h2, h3, h4, h5, d1, d2, d3, d4, d5, hE, hT, hneg, hb, h0, hle]
+
+/-- `AdvanceIter(dst)` with `dst ≠ i` -/
+def SimIter (tape : Array UInt64) (o : Out) (r : Res (Iter × Iter × UInt8)) : Prop :=
+  match r with
+  | .ok (i', d', typ) =>
+    ∃ s, o = .ret s [.u8 typ, .bool false] ∧ s.tape = tape ∧ iterAt s.env "i" = some i' ∧ iterAt s.env "dst" = some d'
+  | .error _ => ∃ s v, o = .ret s [v, .bool true]
+  | .panic => o = .panic
+  | .diverge => False
+
+theorem SimIter.final {tape : Array UInt64} {o : Out} {r : Res (Iter × Iter × UInt8)} (h : SimIter tape o r) :
+    Out.final o = true := by
+  unfold SimIter at h
+  split at h
+  · obtain ⟨s, h, _⟩ := h; rw [h]; rfl
+  · obtain ⟨s, v, h⟩ := h; rw [h]; rfl
+  · rw [h]; rfl
+  · exact h.elim
+
+/-- what `AdvanceIter` does with the live word the loop stopped at (the model's continuation) -/
+def iterTailModel (i1 : Iter) : Res (Iter × Iter × UInt8) :=
+  let i2 := i1.calcNext false
+  if i2.addNext < 0 then .error .generic
+  else
+    let iEnd := i2.off + i2.addNext.toNat
+    let typ := tagToType i2.t
+    let d := i2.calcNext true
+    if d.addNext < 0 then .error .generic
+    else if iEnd > d.lim then .error .generic
+    else .ok (i2, { d with lim := iEnd }, typ)
+
+theorem advanceIter_tail (s : St) (i1 : Iter) (f : Nat) (hI : iterAt s.env "i" = some i1)
+    (hcur : i1.cur.toNat < 2^56) (hne : s.env.get "i!=dst" = some (.bool true)) :
+    SimIter s.tape (exec goFuns (f + 1) (afterLoop goIter_AdvanceIter.body) s) (iterTailModel i1) := by
+  rw [iter_tail_split, exec, call_calcNext_i s i1 false f hI (by omega)]
+  simp only []
+  unfold iterTailModel
+  have hcur2 : (i1.calcNext false).cur.toNat < 2^56 := by
+    unfold Iter.calcNext; split
+    · exact hcur
+    · split
+      · exact hcur
+      · exact hcur
+  generalize i1.calcNext false = i2 at hcur2 ⊢
+  have hI1 : iterAt (setIter s.env "i" i2) "i" = some i2 := iterAt_setIter_i _ _
+  have hne1 : (setIter s.env "i" i2).get "i!=dst" = some (.bool true) := by
+    rw [get_setIter_ne _ _ _ _ (by decide)]; exact hne
+  generalize setIter s.env "i" i2 = e1 at hI1 hne1 ⊢
+  rw [exec_append]
+  obtain ⟨hB1, hB2⟩ := iter_segB e1 s.tape f i2 hI1 hne1
+  by_cases hneg : i2.addNext < 0
+  · obtain ⟨s', hx⟩ := hB1 hneg
+    rw [hx]
+    simp only [hneg, if_true, SimIter]
+    exact ⟨s', _, rfl⟩
+  · rw [hB2 hneg]
+    simp only []
+    rw [exec, call_calcNext_dst _ i2 true f (iterAt_setIter_dst _ _) (by omega)]
+    simp only []
+    have hI3 : iterAt (setIter (setIter ((e1.set "iEnd" (.int ((i2.off : Int) + i2.addNext))).set "typ"
+        (.u8 (tagToType i2.t))) "dst" i2) "dst" (i2.calcNext true)) "i" = some i2 := by
+      rw [iterAt_setIter_dst_i, iterAt_setIter_dst_i]
+      simp (disch := decide) only [iterAt_set_ne, hI1]
+    have hD3 := iterAt_setIter_dst (setIter ((e1.set "iEnd" (.int ((i2.off : Int) + i2.addNext))).set "typ"
+        (.u8 (tagToType i2.t))) "dst" i2) (i2.calcNext true)
+    have hE3 : (setIter (setIter ((e1.set "iEnd" (.int ((i2.off : Int) + i2.addNext))).set "typ"
+        (.u8 (tagToType i2.t))) "dst" i2) "dst" (i2.calcNext true)).get "iEnd" =
+        some (.int ((i2.off : Int) + i2.addNext)) := by
+      rw [get_setIter_ne _ _ _ _ (by decide), get_setIter_ne _ _ _ _ (by decide)]
+      simp [Env.get_set]
+    have hT3 : (setIter (setIter ((e1.set "iEnd" (.int ((i2.off : Int) + i2.addNext))).set "typ"
+        (.u8 (tagToType i2.t))) "dst" i2) "dst" (i2.calcNext true)).get "typ" = some (.u8 (tagToType i2.t)) := by
+      rw [get_setIter_ne _ _ _ _ (by decide), get_setIter_ne _ _ _ _ (by decide)]
+      simp [Env.get_set]
+    generalize setIter (setIter ((e1.set "iEnd" (.int ((i2.off : Int) + i2.addNext))).set "typ"
+        (.u8 (tagToType i2.t))) "dst" i2) "dst" (i2.calcNext true) = e3 at hI3 hD3 hE3 hT3 ⊢
+    rw [iter_segD e3 s.tape f i2 (i2.calcNext true) _ _ hI3 hD3 hE3 hT3 (by omega)]
+    generalize i2.calcNext true = d at hD3 ⊢
+    simp only [hneg, if_false]
+    by_cases hdn : d.addNext < 0
+    · simp only [hdn, if_true, SimIter]
+      exact ⟨_, _, rfl⟩
+    · simp only [hdn, if_false]
+      by_cases hb : (i2.off : Int) + i2.addNext > d.lim
+      · have hb' : i2.off + i2.addNext.toNat > d.lim := by omega
+        simp only [hb, hb', if_true, SimIter]
+        exact ⟨_, _, rfl⟩
+      · have hb' : ¬ i2.off + i2.addNext.toNat > d.lim := by omega
+        simp only [hb, hb', if_false, SimIter]
+        obtain ⟨d1, d2, d3, d4, d5⟩ := iterAt_get_dst _ _ hD3
+        refine ⟨_, rfl, rfl, ?_, ?_⟩
+        · simp (disch := decide) only [iterAt_set_ne, hI3]
+        · apply iterAt_of_gets <;> simp [d1, d2, d3, d4]
+          omega
+
+theorem advanceIterG_sim (pj : PJ) (i dst : Iter) (hl : i.lim ≤ pj.tape.size) (fuel : Nat) (hf : fuelFor i ≤ fuel) :
+    SimIter pj.tape (runFun goFuns goIter_AdvanceIter fuel
+      { env := envOf "i" i ++ envOf "dst" dst ++ [("i!=dst", .bool true)], tape := pj.tape })
+      (advanceIterG pj i dst) := by
+  have hbody : goIter_AdvanceIter.body = .assign "i.off" (.bin .add (.v "i.off") (.v "i.addNext")) ::
+      .loop (firstLoop goIter_AdvanceIter.body) :: afterLoop goIter_AdvanceIter.body := rfl
+  generalize he00 : envOf "i" i ++ envOf "dst" dst ++ [("i!=dst", Val.bool true)] = e00
+  have hI00 : iterAt e00 "i" = some i := by subst he00; simp [envOf, Env.get, iterAt]
+  have hD00 : iterAt e00 "dst" = some dst := by subst he00; simp [envOf, Env.get, iterAt]
+  have hN00 : e00.get "i!=dst" = some (.bool true) := by subst he00; simp [envOf, Env.get]
+  obtain ⟨g1, g2, g3, g4, g5⟩ := iterAt_get_i _ _ hI00
+  have h1 : exec1 goFuns fuel (.assign "i.off" (.bin .add (.v "i.off") (.v "i.addNext"))) ⟨e00, pj.tape⟩ =
+      .normal ⟨e00.set "i.off" (.int ((i.off : Int) + i.addNext)), pj.tape⟩ := by
+    simp [g1, g2]
+  have hD0 : iterAt (e00.set "i.off" (.int ((i.off : Int) + i.addNext))) "dst" = some dst := by
+    rw [iterAt_set_ne _ _ _ _ (by decide)]; exact hD00
+  have hN0 : (e00.set "i.off" (.int ((i.off : Int) + i.addNext))).get "i!=dst" = some (.bool true) := by
+    rw [Env.get_set_ne _ _ (by decide)]; exact hN00
+  unfold fuelFor at hf
+  obtain ⟨f, rfl⟩ : ∃ f, fuel = f + 2 := ⟨fuel - 2, by omega⟩
+  have key : SimIter pj.tape (exec goFuns (f + 2) goIter_AdvanceIter.body ⟨e00, pj.tape⟩)
+      (advanceIterG pj i dst) := by
+    rw [hbody, exec, h1]
+    simp only []
+    unfold advanceIterG Iter.bump
+    by_cases ho : (i.off : Int) + i.addNext < 0
+    · have hp : exec1 goFuns (f + 2) (.loop (firstLoop goIter_AdvanceIter.body))
+          ⟨e00.set "i.off" (.int ((i.off : Int) + i.addNext)), pj.tape⟩ = .panic := by
+        rw [exec1, advanceIter_body_neg _ pj.tape (f + 1) _ i.lim ho (Env.get_set_self _ _ _)
+          (by rw [Env.get_set_ne _ _ (by decide)]; exact g5)]
+      rw [exec_cons_final _ _ _ _ _ (by rw [hp]; rfl), hp]
+      simp [ho, SimIter]
+    · simp only [ho, if_false, Res.bind_ok]
+      have hI : iterAt (e00.set "i.off" (.int ((i.off : Int) + i.addNext))) "i" =
+          some { i with off := ((i.off : Int) + i.addNext).toNat } := by
+        apply iterAt_of_gets <;> simp [g2, g3, g4, g5]
+        omega
+      have hloop := advanceIter_loop pj i.lim { i with off := ((i.off : Int) + i.addNext).toNat } (f + 2) _
+        (Nat.sub_le _ _) (by omega) hl hI
+      generalize e00.set "i.off" (.int ((i.off : Int) + i.addNext)) = e0 at hD0 hN0 hI hloop ⊢
+      rw [exec]
+      generalize exec1 goFuns (f + 2) (.loop (firstLoop goIter_AdvanceIter.body)) ⟨e0, pj.tape⟩ = out at hloop ⊢
+      cases hg : advanceIterLoopG pj { i with off := ((i.off : Int) + i.addNext).toNat } with
+      | ok r =>
+        obtain ⟨a, l⟩ := r
+        rw [hg] at hloop
+        cases l with
+        | true =>
+          obtain ⟨s, rfl, hst, hIs, hc, hF⟩ := hloop
+          simp only []
+          have hne : s.env.get "i!=dst" = some (.bool true) := by rw [hF _ (by decide)]; exact hN0
+          have ht := advanceIter_tail s a (f + 1) hIs hc hne
+          rw [hst] at ht
+          simpa [iterTailModel] using ht
+        | false =>
+          obtain ⟨s, rfl, hst, hIs, hF⟩ := hloop
+          simp only [Res.bind_ok, Bool.not_false, if_true, SimIter, typeNone]
+          exact ⟨s, rfl, hst, hIs, by rw [hF.iterAt_dst]; exact hD0⟩
+      | panic =>
+        rw [hg] at hloop
+        simp only [LoopSimIter] at hloop
+        subst hloop
+        simp [SimIter]
+      | error e =>
+        rw [hg] at hloop
+        obtain ⟨s, rfl⟩ := hloop
+        simp only [SimIter]
+        exact ⟨s, _, rfl⟩
+      | diverge => rw [hg] at hloop; exact hloop.elim
+  rw [runFun_final _ _ _ _ key.final]
+  exact key
+
 end SJ.GoIter
